@@ -704,7 +704,9 @@ func stateBeginArrayItemOrEmpty(s *Scanner, c byte) state {
 	if c == ']' {
 		return stateFoundArrayEnd(s)
 	}
-	if s.annotation == annotationNone {
+	// A blank between the brackets isn't an item: "[ ]" is as empty as "[]" (and
+	// may be followed by an annotation like "{ }").
+	if s.annotation == annotationNone && !bytes.IsBlank(c) {
 		s.context.ArrayHasItem = true
 	}
 	return stateBeginValue(s, c)
